@@ -25,6 +25,10 @@ impl Personality {
     pub fn debug_like_value(self) -> bool {
         self.0 & 4 == 0
     }
+    /// bit3: one number type — `From<f64>` of an integral value builds the integer form
+    pub fn canonical_numbers(self) -> bool {
+        self.0 & 8 != 0
+    }
 }
 
 thread_local! {
@@ -235,6 +239,9 @@ impl<const P: usize> From<i64> for Sim<P> {
 impl<const P: usize> From<f64> for Sim<P> {
     fn from(f: f64) -> Self {
         seam(13);
+        if personality().canonical_numbers() && f.is_finite() && f.fract() == 0.0 && f.abs() < 9.0e18 {
+            return Sim::Int(f as i64);
+        }
         if f.is_finite() {
             Sim::Float(f)
         } else {
